@@ -5,15 +5,18 @@ import shutil
 
 import apel
 import clirun
+import toprun
 import common
 import jsonio
 from common import Check, lean_batch
 
-TRUSTED = ['Lean 4.33.0 kernel (+ leanchecker in the thorough tier)',
+TRUSTED = ['harness/toprun.py (worlds materialised as real trees, the real peltool.main() run end to end in-process with nothing replaced, recursive snapshots, comparison with the driver op runmain = Pel.runMain of PelModel/Top.lean)',
+           'Lean 4.33.0 kernel (+ leanchecker in the thorough tier)',
            'axioms: propext, Classical.choice, Quot.sound only (audited per theorem)',
            'harness/c08.py + clirun.py + apel.py (directory generator, in-process CLI runs, comparison), Drv.lean protocol parsing',
            'compiled driver peldrv agrees with the kernel reading of the same definitions']
-ASSUME = ['os.walk, list.sort on str, os.path.splitext and argparse are modelled (walk order is a parameter taken from the real directory), not verified',
+ASSUME = ['whole-command model: -o names the -p directory iff absent/empty or the same string; the -f file is not a top-level file of the -p directory; --json is composed in batch form (an output name equal to another input file name is outside the composition)',
+          'os.walk, list.sort on str, os.path.splitext and argparse are modelled (walk order is a parameter taken from the real directory), not verified',
           'the CLI is run in-process (peltool.main with a patched argv); a sample is re-run as a real subprocess']
 RULE = ('cases = (directory of 0..30 well-formed PEL files with distinct entry ids and assorted names/extensions, selection options, '
         '--reverse, --extension, --hex) each run through -n, -l and -a on the real CLI; non-trivial = at least two files selected; '
@@ -120,6 +123,8 @@ def run(tier, seed):
             shutil.rmtree(p, ignore_errors=True)
     finally:
         env.uninstall()
+    # the WHOLE command end to end on real trees vs Pel.runMain (PelModel/Top.lean), and the command-level properties on the real runs
+    toprun.check_top(ck, tier, 'agree')
     return ck.finish(RULE, TRUSTED, ASSUME)
 
 
